@@ -344,7 +344,7 @@ func genTrees(rng *hutil.Rng, tier string) []treeSpec {
 		cli := false
 		switch {
 		case tier == "thorough":
-			cli = len(s.Dirs) <= 4 || rng.Below(4) == 0
+			cli = (len(s.Dirs) <= 3 && i < nExhaustive) || rng.Below(12) == 0
 		case len(s.Dirs) <= 2 && i < nExhaustive:
 			cli = true
 		default:
@@ -759,13 +759,13 @@ var plusDecls = []map[string]any{
 	{"type": "function", "args": []any{}, "result": map[string]any{"type": "number"}},
 }
 
-// oracle for a plus entry: what yaml.v3 itself makes of the entry when it decodes it into OPA's
-// ast.Builtin (types.Function only knows JSON, so the declaration does not survive: "->")
+// oracle for a plus entry: OPA's own JSON decoding of {name, decl} into ast.Builtin, rendered with
+// OPA's type printer (the code under test reads the declaration since commit bda07f4)
 func renderPlus(decl map[string]any, name string) string {
-	bs, err := yaml.Marshal(map[string]any{"name": name, "decl": decl})
+	bs, err := json.Marshal(map[string]any{"name": name, "decl": decl})
 	must(err)
 	var b ast.Builtin
-	must(yaml.Unmarshal(bs, &b))
+	must(json.Unmarshal(bs, &b))
 	return renderBuiltin(&b)
 }
 
@@ -1099,6 +1099,42 @@ func predUserWins(u, m obsConfig) []string {
 	return bad
 }
 
+// the levels and default levels written in the user's DOCUMENT are the levels of the merged
+// configuration: rule level, else category default, else global default
+func predDocLevels(doc map[string]any, m obsConfig) []string {
+	var bad []string
+	rules, _ := doc["rules"].(map[string]any)
+	str := func(v any, keys ...string) string {
+		for _, k := range keys {
+			mm, ok := v.(map[string]any)
+			if !ok {
+				return ""
+			}
+			v = mm[k]
+		}
+		s, _ := v.(string)
+		return s
+	}
+	global := str(rules, "default", "level")
+	for cat, rs := range m.Rules {
+		catDefault := str(rules, cat, "default", "level")
+		for name, mr := range rs {
+			want := str(rules, cat, name, "level")
+			if want == "" {
+				want = catDefault
+			}
+			if want == "" {
+				want = global
+			}
+			if want != "" && mr.Level != want {
+				bad = append(bad, fmt.Sprintf("level of %s/%s is %q, the document asks for %q", cat, name, mr.Level, want))
+			}
+		}
+	}
+	sort.Strings(bad)
+	return bad
+}
+
 func normIgnore(o obsConfig) obsConfig {
 	bs, _ := json.Marshal(o)
 	var c obsConfig
@@ -1274,7 +1310,7 @@ func (g *genCtx) runMerge(spec mergeSpec, realProvided obsConfig) map[string]any
 		rec["pred_reload_differs"] = true
 	}
 	rec["pred_only_overrides"] = predOnlyOverrides(provided, uobs, mobs)
-	rec["pred_user_wins"] = predUserWins(uobs, mobs)
+	rec["pred_user_wins"] = append(predUserWins(uobs, mobs), predDocLevels(spec.YamlDoc, mobs)...)
 	if spec.Provided == nil || spec.RtMerged {
 		rec["rt_merged"] = g.roundtrip(&merged, false)
 	}
@@ -1310,7 +1346,7 @@ func mergeMain(outPath, work, tier, specsFile string) {
 	} else {
 		nSynth, nReal, nBad := 300, 30, 100
 		if tier == "thorough" {
-			nSynth, nReal, nBad = 6000, 300, 1200
+			nSynth, nReal, nBad = 3000, 200, 600
 		}
 		for i := 0; i < nSynth; i++ {
 			pd := genProvided(g.rng)
